@@ -444,27 +444,16 @@ func Discharge(obls []*Obligation, dir string, timeout int, thorough bool, jobs 
 				}
 				return false
 			}
-			if knownFail != nil && knownFail(o) && !thorough {
+			if knownFail != nil && knownFail(o) {
 				// recorded finding: one short attempt (it is expected not to discharge)
-				sr := runSolver("z3-new", f, 3)
+				kt := 3
+				if thorough {
+					kt = 15
+				}
+				sr := runSolver("z3-new", f, kt)
 				r.Attempts = append(r.Attempts, sr)
 				if sr.Result == "unsat" {
 					r.By, r.Status = "z3-new", "discharged"
-				}
-			} else if thorough {
-				// all solvers are consulted; every definite answer must agree
-				all := []string{"z3-new", "z3-new/as2", "z3", "cvc5"}
-				if o.Raw != "" {
-					// string track: see below for why the legacy-simplex configuration is left out
-					all = []string{"z3-new", "z3", "cvc5"}
-				}
-				for _, s := range all {
-					try(s)
-				}
-				for _, a := range r.Attempts {
-					if a.Result == "sat" {
-						r.Status = "failed"
-					}
 				}
 			} else {
 				// z3 5.1.0 (two strategies) and z3 4.8.12 race; then cvc5
@@ -500,8 +489,33 @@ func Discharge(obls []*Obligation, dir string, timeout int, thorough bool, jobs 
 				if !isDef && o.Raw != "" {
 					try("cvc5")
 				}
+				if thorough && r.Status == "discharged" {
+					// every other solver is consulted as well (briefly); a definite answer that disagrees fails the obligation
+					all := []string{"z3-new", "z3-new/as2", "z3", "cvc5"}
+					if o.Raw != "" {
+						all = []string{"z3-new", "z3", "cvc5"}
+					}
+					for _, sname := range all {
+						seen := false
+						for _, a := range r.Attempts {
+							if a.Solver == sname && (a.Result == "unsat" || a.Result == "sat") {
+								seen = true
+							}
+						}
+						if !seen {
+							by := r.By
+							try(sname)
+							r.By = by
+						}
+					}
+					for _, a := range r.Attempts {
+						if a.Result == "sat" {
+							r.Status = "failed"
+						}
+					}
+				}
 			}
-			if r.Status != "discharged" && !thorough && (knownFail == nil || !knownFail(o)) {
+			if r.Status != "discharged" && (knownFail == nil || !knownFail(o)) {
 				sat := false
 				for _, a := range r.Attempts {
 					if a.Result == "sat" {
